@@ -66,6 +66,9 @@ type wBitmap struct {
 	// one) and a size for each: arguments for OfMany
 	segs  [][]int32
 	sizes []int32
+	// the positions with two inner elements swapped (the last one is still the
+	// largest, which is all Of needs to size its result)
+	unsorted []int32
 	// a TailBitmap holding the same bits (only ever read by the tasks)
 	tail *bitmap.TailBitmap
 }
@@ -365,6 +368,11 @@ func buildWorld(spec WorldSpec) *world {
 			}
 			b.sizes = append(b.sizes, sz)
 		}
+		us := append([]int32(nil), pos...)
+		if len(us) >= 3 {
+			us[0], us[len(us)-2] = us[len(us)-2], us[0]
+		}
+		b.unsorted = a.i32s(us)
 		b.tail = bitmap.NewTailBitmap(64)
 		for _, q := range pos {
 			b.tail.Set(int64(q) + 64)
@@ -463,6 +471,7 @@ func (w *world) snapshot() uint64 {
 		hi(b.s32r)
 		hi(b.s32rRank)
 		hi(b.pos)
+		hi(b.unsorted)
 	}
 	for _, k := range w.keys {
 		for _, s := range k.keys {
